@@ -419,6 +419,9 @@ def corpus(spec_id):
     if spec_id in ("grounder", "negative-conditions-remover", "quantifiers-remover"):
         out += traj_corpus()[::4]
     out += suffix_corpus(spec_id)
+    if spec_id in ("grounder", "pipeline:grounder+negative-conditions"):
+        import random as _random
+        out += negated_static_family(_random.Random(3), 3)
     if spec_id in ("negative-conditions-remover", "pipeline:grounder+negative-conditions"):
         out += negated_names_corpus()
     if spec_id in ("usertype-fluents-remover", "pipeline:usertype+quantifiers+disjunctive"):
@@ -619,6 +622,80 @@ def graph_family(rng, n):
             p.add_action(bk)
         p.add_goal(at(objs[order[min(2, k - 1)]]))
         out.append(HandGen(p, "static-binary-relation"))
+    return out
+
+
+def negated_static_family(rng, n):
+    """NEGATED uses of a static relation of arity 2 or 3 in preconditions (alone or conjoined with a positive static
+    relation); the relation is true for some but not all tuples sharing an object, and the goal is reachable only through
+    instances whose arguments each occur (at that position) in some true tuple of the negated relation - a pruning that
+    removes objects per argument position is exact for unary predicates only"""
+    from collections import OrderedDict
+    from unified_planning.environment import Environment
+    from unified_planning.model import Fluent, Object, Problem, InstantaneousAction
+    out = []
+    for i in range(n):
+        env = Environment()
+        tm, em = env.type_manager, env.expression_manager
+        T = tm.UserType("Loc")
+        p = Problem("negstatic-%d" % i, env)
+        k = rng.choice([3, 3, 4])
+        objs = [Object(nm, T, env) for nm in rng.sample(["l1", "l2", "l3", "l_4", "l1_l2"], k)]
+        p.add_objects(objs)
+        order = list(range(k))
+        rng.shuffle(order)
+        start, mid, target = order[0], order[1], order[2]
+        arity = 2 if i % 3 != 2 else 3
+        sig = OrderedDict([("x", T), ("y", T)] + ([("z", T)] if arity == 3 else []))
+        blocked = Fluent("blocked", tm.BoolType(), sig, env)
+        at = Fluent("at", tm.BoolType(), OrderedDict([("x", T)]), env)
+        dflt = rng.choice([False, False, None])
+        if dflt is None:
+            p.add_fluent(blocked)
+        else:
+            p.add_fluent(blocked, default_initial_value=False)
+        p.add_fluent(at, default_initial_value=False)
+        p.set_initial_value(at(objs[start]), True)
+        # true tuples: the direct step start -> target is blocked (so two steps are needed) ...
+        if arity == 2:
+            true = {(start, target)}
+            if rng.random() < 0.5:
+                true.add((mid, start))                     # ... and mid occurs at position 0, start at position 1
+            needed = {(start, mid), (mid, target)}
+        else:
+            true = {(start, target, mid), (start, target, start), (start, target, target)}
+            if k == 4:
+                true.add((start, target, order[3]))
+            if rng.random() < 0.5:
+                true.add((mid, start, target))
+            needed = {(start, mid, target), (mid, target, start)}
+        true -= needed
+        from itertools import product as _prod
+        for tup in _prod(range(k), repeat=arity):
+            if tup in true:
+                p.set_initial_value(blocked(*[objs[j] for j in tup]), True)
+            elif dflt is None:
+                p.set_initial_value(blocked(*[objs[j] for j in tup]), False)
+        positive = rng.random() < 0.4
+        if positive:
+            link = Fluent("link", tm.BoolType(), OrderedDict([("x", T), ("y", T)]), env)
+            p.add_fluent(link, default_initial_value=True)
+            p.set_initial_value(link(objs[start], objs[target]), False)
+        mv = InstantaneousAction("move", OrderedDict([("x", T), ("y", T)] + ([("z", T)] if arity == 3 else [])), env)
+        pars = [mv.parameter(nm) for nm in sig]
+        mv.add_precondition(at(pars[0]))
+        neg = em.Not(blocked(*pars))
+        if positive and rng.random() < 0.5:
+            mv.add_precondition(em.And(link(pars[0], pars[1]), neg))
+        else:
+            mv.add_precondition(neg)
+            if positive:
+                mv.add_precondition(link(pars[0], pars[1]))
+        mv.add_effect(at(pars[0]), False)
+        mv.add_effect(at(pars[1]), True)
+        p.add_action(mv)
+        p.add_goal(at(objs[target]))
+        out.append(HandGen(p, "negated-static-relation-arity-%d" % arity))
     return out
 
 
@@ -1094,6 +1171,7 @@ def build_cases(ctx, per_compiler, max_insts, adversarial=0.0, only=None):
             fam += safe(zero_bound_family, rng, 10 + nf)
         if spec["id"] in ("grounder", "pipeline:grounder+negative-conditions"):
             fam += safe(graph_family, rng, nf)
+            fam += safe(negated_static_family, rng, max(3, nf))
         if spec["id"] in ("usertype-fluents-remover", "pipeline:usertype+quantifiers+disjunctive", "grounder", "quantifiers-remover"):
             fam += safe(param_name_family, rng, nf)
         comp0 = spec["make"]()
